@@ -645,7 +645,7 @@ Ltac core_eqs Hc :=
   let Hme := fresh "Hme" in let Hmf := fresh "Hmf" in let Hq := fresh "Hq" in let Hd := fresh "Hd" in
   let Hpe := fresh "Hpe" in let Hw := fresh "Hw" in let He := fresh "He" in let Hs := fresh "Hs" in
   let Ht := fresh "Ht" in
-  inversion Hc as [[Hblk Hpr Hvo Hme Hmf Hq Hd Hpe Hw He Hs Ht]].
+  injection Hc as Hblk Hpr Hvo Hme Hmf Hq Hd Hpe Hw He Hs Ht.
 
 (** Every successful operation preserves the invariant, changes the excess only by a donation, and
     conserves the fee token (balances + burned). *)
@@ -754,15 +754,15 @@ Proof.
     unfold ep_block in H. destruct (0 <=? d) eqn:E; [|discriminate]. apply Z.leb_le in E.
     inversion H; subst; clear H.
     split; [|split]; [| unfold excess, bal; simpl; lia | simpl; lia].
-    apply inv_core with (g := g); simpl; auto; try lia.
+    apply inv_core with (g := g); unfold bal; simpl; auto; try lia.
   - (* SetEnergy *)
     unfold ep_set_energy in H. destruct (0 <=? e); [|discriminate]. inversion H; subst; clear H.
     split; [|split]; [| unfold excess, bal; simpl; lia | simpl; lia].
-    apply inv_core with (g := g); simpl; auto; try lia.
+    apply inv_core with (g := g); unfold bal; simpl; auto; try lia.
   - (* Sync *)
     unfold ep_sync in H. apply bind_ok in H. destruct H as (t & _ & H). inversion H; subst; clear H.
     split; [|split]; [| unfold excess, bal; simpl; lia | simpl; lia].
-    apply inv_core with (g := g); simpl; auto; try lia.
+    apply inv_core with (g := g); unfold bal; simpl; auto; try lia.
   - (* Donate *)
     unfold ep_donate in H. destruct ((0 <? amt) && negb (c =? SELF)) eqn:E; [|discriminate].
     apply bind_ok in H. destruct H as (g1 & Hx & H). inversion H; subst; clear H.
@@ -779,33 +779,766 @@ Proof.
     unfold ep_change_min_energy in H. destruct (only_owner c); [|discriminate]. destruct (0 <=? v); [|discriminate].
     inversion H; subst; clear H.
     split; [|split]; [| unfold excess, bal; simpl; lia | simpl; lia].
-    apply inv_core with (g := g); simpl; auto; try lia.
+    apply inv_core with (g := g); unfold bal; simpl; auto; try lia.
   - (* ChangeMinFee *)
     unfold ep_change_min_fee in H. destruct (only_owner c); [|discriminate]. destruct (ok_min_fee v); [|discriminate].
     inversion H; subst; clear H.
     split; [|split]; [| unfold excess, bal; simpl; lia | simpl; lia].
-    apply inv_core with (g := g); simpl; auto; try lia.
+    apply inv_core with (g := g); unfold bal; simpl; auto; try lia.
   - (* ChangeQuorum *)
     unfold ep_change_quorum in H. destruct (only_owner c); [|discriminate]. destruct (ok_quorum v); [|discriminate].
     inversion H; subst; clear H.
     split; [|split]; [| unfold excess, bal; simpl; lia | simpl; lia].
-    apply inv_core with (g := g); simpl; auto; try lia.
+    apply inv_core with (g := g); unfold bal; simpl; auto; try lia.
   - (* ChangeWithdrawPct *)
     unfold ep_change_wpct in H. destruct (only_owner c); [|discriminate]. destruct (ok_wpct v) eqn:E; [|discriminate].
     inversion H; subst; clear H.
     unfold ok_wpct in E. apply andb_prop in E. destruct E as [E1 E2]. apply Z.leb_le in E1, E2.
     split; [|split]; [| unfold excess, bal; simpl; lia | simpl; lia].
-    apply inv_core with (g := g); simpl; auto; try lia.
+    apply inv_core with (g := g); unfold bal; simpl; auto; try lia.
   - (* ChangeDelay *)
     unfold ep_change_delay in H. destruct (only_owner c); [|discriminate]. destruct (ok_delay v); [|discriminate].
     inversion H; subst; clear H.
     split; [|split]; [| unfold excess, bal; simpl; lia | simpl; lia].
-    apply inv_core with (g := g); simpl; auto; try lia.
+    apply inv_core with (g := g); unfold bal; simpl; auto; try lia.
   - (* ChangePeriod *)
     unfold ep_change_period in H. destruct (only_owner c); [|discriminate]. destruct (ok_period v) eqn:E; [|discriminate].
     inversion H; subst; clear H.
     unfold ok_period in E. apply andb_prop in E. destruct E as [E1 E2]. apply Z.leb_le in E1.
     pose proof gov_cfg_bounds as (_ & B & _).
     split; [|split]; [| unfold excess, bal; simpl; lia | simpl; lia].
-    apply inv_core with (g := g); simpl; auto; try lia.
+    apply inv_core with (g := g); unfold bal; simpl; auto; try lia.
+Qed.
+
+(** ------------------------------------------------------------------ reachable states *)
+Definition cfg_ok (w p : Z) : Prop := 0 <= w <= FULL /\ 0 <= p.
+
+Lemma init_inv me mf q d p w blk bals :
+  cfg_ok w p -> NoDup (akeys bals) -> 0 <= aget bals SELF -> GovInv (init_gov me mf q d p w blk bals).
+Proof.
+  intros [Hw Hp] Hnd Hb. constructor; simpl; auto.
+  - intros id x H. rewrite get_prop_getp in H. simpl in H. apply getp_some in H. simpl in H. lia.
+  - intros id x H. rewrite get_prop_getp in H. simpl in H. apply getp_some in H. simpl in H. lia.
+  - unfold excess, bal. simpl. lia.
+Qed.
+
+Lemma step_total_inv g op : GovInv g -> GovInv (step_total g op).
+Proof.
+  intros H. unfold step_total. destruct (step g op) as [[g' o]|] eqn:E; [|exact H].
+  exact (proj1 (step_inv _ _ _ _ E H)).
+Qed.
+
+Lemma run_inv ops : forall g, GovInv g -> GovInv (run g ops).
+Proof.
+  unfold run. induction ops as [|op t IH]; intros g H; simpl; [exact H|].
+  apply IH. apply step_total_inv. exact H.
+Qed.
+
+(** the fee token is conserved along every history *)
+Lemma run_conserved ops : forall g, GovInv g ->
+  asum (g_bal (run g ops)) + g_burned (run g ops) = asum (g_bal g) + g_burned g.
+Proof.
+  unfold run. induction ops as [|op t IH]; intros g H; simpl; [reflexivity|].
+  rewrite IH by (apply step_total_inv; exact H).
+  unfold step_total. destruct (step g op) as [[g' o]|] eqn:E; [|reflexivity].
+  exact (proj2 (proj2 (step_inv _ _ _ _ E H))).
+Qed.
+
+(** donations received along a history *)
+Fixpoint donated (g : gov) (ops : list gop) : Z :=
+  match ops with
+  | [] => 0
+  | op :: t => match step g op with
+               | Ok (g', _) => donation op + donated g' t
+               | Err _ => donated g t
+               end
+  end.
+
+(** contract balance = un-withdrawn fees + donations, along every history *)
+Lemma run_excess ops : forall g, GovInv g -> excess (run g ops) = excess g + donated g ops.
+Proof.
+  unfold run. induction ops as [|op t IH]; intros g H; simpl; [lia|].
+  unfold step_total. destruct (step g op) as [[g' o]|] eqn:E.
+  - pose proof (step_inv _ _ _ _ E H) as (I' & Ex & _). rewrite IH by exact I'. lia.
+  - apply IH. exact H.
+Qed.
+
+(** ------------------------------------------------------------------ the fee leaves escrow: exact amounts *)
+Definition is_floor (q n d : Z) : Prop := q * d <= n < (q + 1) * d.
+
+Lemma bal_put g id p a : bal (put_prop g id p) a = bal g a.
+Proof. reflexivity. Qed.
+
+Lemma cancel_fee g c id g' o : GovInv g -> ep_cancel g c id = Ok (g', o) ->
+  exists p, get_prop g id = Some p /\ escrowed p = true /\
+    view_status g id = GOV_STATUS_Pending /\ g_block g < pr_start p + pr_delay p /\
+    c = pr_proposer p /\
+    bal g' SELF = bal g SELF - pr_fee p /\
+    bal g' (pr_proposer p) = bal g (pr_proposer p) + pr_fee p /\
+    (forall a, a <> SELF -> a <> pr_proposer p -> bal g' a = bal g a) /\
+    g_burned g' = g_burned g /\
+    get_prop g' id = Some pr_cleared /\ view_status g' id = GOV_STATUS_None /\
+    (forall id2, id2 <> id -> get_prop g' id2 = get_prop g id2).
+Proof.
+  intros Hinv H. pose proof Hinv as [IP IW IN IWp IPe IE].
+  apply cancel_spec in H. destruct H as (p & g1 & Hp & Hl & Hvs & Hst & Hc & Hx & -> & _).
+  pose proof (IP _ _ Hp) as [_ _ _ Hprop]. specialize (Hprop Hl). apply is_sc_false in Hprop. destruct Hprop as [HpS _].
+  pose proof (xfer_spec _ _ _ _ _ Hx) as (Hle & Hb & Hbu & Hco & _).
+  core_eqs Hco.
+  pose proof (status_pending_early _ _ Hst) as Hearly.
+  assert (Hwd : pr_withdrawn p = false).
+  { destruct (pr_withdrawn p) eqn:W; [|reflexivity]. pose proof (IW _ _ Hp W). lia. }
+  pose proof Hp as Hp0. rewrite get_prop_getp in Hp0. pose proof (getp_some _ _ _ Hp0) as [Hr Hn].
+  assert (Hget : get_prop (put_prop g1 id pr_cleared) id = Some pr_cleared).
+  { rewrite get_prop_getp. unfold put_prop. simpl. rewrite Hpr. apply getp_upd_same. exact Hr. }
+  exists p. split; [exact Hp|]. split; [unfold escrowed; rewrite Hl, Hwd; reflexivity|].
+  split; [exact Hvs|]. split; [exact Hearly|]. split; [exact Hc|].
+  split. { rewrite bal_put, (Hb SELF), Z.eqb_refl.
+           destruct (SELF =? pr_proposer p) eqn:E; [apply Z.eqb_eq in E; congruence|]. lia. }
+  split. { rewrite bal_put, (Hb (pr_proposer p)), Z.eqb_refl.
+           destruct (pr_proposer p =? SELF) eqn:E; [apply Z.eqb_eq in E; congruence|]. lia. }
+  split. { intros a A1 A2. rewrite bal_put, (Hb a).
+           destruct (a =? SELF) eqn:E1; [apply Z.eqb_eq in E1; congruence|].
+           destruct (a =? pr_proposer p) eqn:E2; [apply Z.eqb_eq in E2; congruence|]. lia. }
+  split; [exact Hbu|]. split; [exact Hget|].
+  split. { apply view_status_none. intros q0 Hq0. rewrite Hget in Hq0. inversion Hq0; subst. reflexivity. }
+  intros id2 Hne. rewrite !get_prop_getp. unfold put_prop. simpl. rewrite Hpr. apply getp_upd_other; lia.
+Qed.
+
+Lemma withdraw_fee g c id g' o : GovInv g -> ep_withdraw g c id = Ok (g', o) ->
+  exists p refund, get_prop g id = Some p /\ escrowed p = true /\
+    view_status g id = status_of (g_block g) p /\
+    (((status_of (g_block g) p = GOV_STATUS_Succeeded \/ status_of (g_block g) p = GOV_STATUS_Defeated) /\
+      c = pr_proposer p /\ refund = pr_fee p)
+     \/ (status_of (g_block g) p = GOV_STATUS_DefeatedWithVeto /\ is_floor refund (pr_wpct p * pr_fee p) FULL)) /\
+    0 <= refund <= pr_fee p /\
+    bal g' SELF = bal g SELF - pr_fee p /\
+    bal g' (pr_proposer p) = bal g (pr_proposer p) + refund /\
+    (forall a, a <> SELF -> a <> pr_proposer p -> bal g' a = bal g a) /\
+    g_burned g' = g_burned g + (pr_fee p - refund) /\
+    get_prop g' id = Some (pr_set_withdrawn p) /\
+    (forall id2, id2 <> id -> get_prop g' id2 = get_prop g id2).
+Proof.
+  intros Hinv H. pose proof Hinv as [IP IW IN IWp IPe IE]. pose proof full_pos as HF.
+  apply withdraw_spec in H. destruct H as (p & Hp & Hl & Hwd & _ & Hvs & Hcase).
+  pose proof (IP _ _ Hp) as [Hw Hfee _ Hprop]. specialize (Hprop Hl). apply is_sc_false in Hprop. destruct Hprop as [HpS _].
+  assert (Hesc : escrowed p = true) by (unfold escrowed; rewrite Hl, Hwd; reflexivity).
+  pose proof Hp as Hp0. rewrite get_prop_getp in Hp0. pose proof (getp_some _ _ _ Hp0) as [Hr Hn].
+  destruct Hcase as [(Hst & Hc & g1 & Hx & ->) | (Hst & Hcase)].
+  - pose proof (xfer_spec _ _ _ _ _ Hx) as (Hle & Hb & Hbu & Hco & _). core_eqs Hco.
+    exists p, (pr_fee p). split; [exact Hp|]. split; [exact Hesc|]. split; [exact Hvs|].
+    split; [left; auto|]. split; [lia|].
+    split. { rewrite bal_put, (Hb SELF), Z.eqb_refl.
+             destruct (SELF =? pr_proposer p) eqn:E; [apply Z.eqb_eq in E; congruence|]. lia. }
+    split. { rewrite bal_put, (Hb (pr_proposer p)), Z.eqb_refl.
+             destruct (pr_proposer p =? SELF) eqn:E; [apply Z.eqb_eq in E; congruence|]. lia. }
+    split. { intros a A1 A2. rewrite bal_put, (Hb a).
+             destruct (a =? SELF) eqn:E1; [apply Z.eqb_eq in E1; congruence|].
+             destruct (a =? pr_proposer p) eqn:E2; [apply Z.eqb_eq in E2; congruence|]. lia. }
+    split. { unfold put_prop. simpl. lia. }
+    split. { rewrite get_prop_getp. unfold put_prop. simpl. rewrite Hpr. apply getp_upd_same. exact Hr. }
+    intros id2 Hne. rewrite !get_prop_getp. unfold put_prop. simpl. rewrite Hpr. apply getp_upd_other; lia.
+  - cbv zeta in Hcase. destruct Hcase as (Hle & g1 & g2 & Hbn & Hx & ->).
+    pose proof (div_lo (pr_wpct p * pr_fee p) FULL HF) as DL.
+    pose proof (div_hi (pr_wpct p * pr_fee p) FULL HF) as DH.
+    assert (R0 : 0 <= pr_wpct p * pr_fee p / FULL) by (apply div_nonneg; [nia | exact HF]).
+    set (refund := pr_wpct p * pr_fee p / FULL) in *. clearbody refund.
+    pose proof (burn_spec _ _ _ Hbn) as (Hle1 & Hb1 & Hbu1 & Hc1 & _).
+    pose proof (xfer_spec _ _ _ _ _ Hx) as (Hle2 & Hb2 & Hbu2 & Hc2 & _).
+    rewrite Hc1 in Hc2. core_eqs Hc2.
+    exists p, refund. split; [exact Hp|]. split; [exact Hesc|]. split; [exact Hvs|].
+    split; [right; split; [exact Hst | unfold is_floor; lia]|]. split; [lia|].
+    split. { rewrite bal_put, (Hb2 SELF), (Hb1 SELF), Z.eqb_refl.
+             destruct (SELF =? pr_proposer p) eqn:E; [apply Z.eqb_eq in E; congruence|]. lia. }
+    split. { rewrite bal_put, (Hb2 (pr_proposer p)), (Hb1 (pr_proposer p)), Z.eqb_refl.
+             destruct (pr_proposer p =? SELF) eqn:E; [apply Z.eqb_eq in E; congruence|]. lia. }
+    split. { intros a A1 A2. rewrite bal_put, (Hb2 a), (Hb1 a).
+             destruct (a =? SELF) eqn:E1; [apply Z.eqb_eq in E1; congruence|].
+             destruct (a =? pr_proposer p) eqn:E2; [apply Z.eqb_eq in E2; congruence|]. lia. }
+    split. { unfold put_prop. simpl. lia. }
+    split. { rewrite get_prop_getp. unfold put_prop. simpl. rewrite Hpr. apply getp_upd_same. exact Hr. }
+    intros id2 Hne. rewrite !get_prop_getp. unfold put_prop. simpl. rewrite Hpr. apply getp_upd_other; lia.
+Qed.
+
+(** a withdrawn or cancelled fee cannot be taken again *)
+Lemma withdraw_needs_escrow g c id p :
+  get_prop g id = Some p -> escrowed p = false -> is_ok (ep_withdraw g c id) = false.
+Proof.
+  intros Hp He. destruct (ep_withdraw g c id) as [[g' o]|] eqn:E; [|reflexivity]. exfalso.
+  apply withdraw_spec in E. destruct E as (q & Hq & Hl & Hw & _). rewrite Hp in Hq. inversion Hq; subst.
+  unfold escrowed in He. rewrite Hl, Hw in He. discriminate.
+Qed.
+
+Lemma cancel_needs_escrow g c id p : GovInv g ->
+  get_prop g id = Some p -> escrowed p = false -> is_ok (ep_cancel g c id) = false.
+Proof.
+  intros Hinv Hp He. destruct (ep_cancel g c id) as [[g' o]|] eqn:E; [|reflexivity]. exfalso.
+  apply (cancel_fee _ _ _ _ _ Hinv) in E. destruct E as (q & Hq & Hesc & _). rewrite Hp in Hq. inversion Hq; subst.
+  congruence.
+Qed.
+
+(** ------------------------------------------------------------------ the escrow flag is one-way *)
+(** Proposals never disappear from the list, an escrow flag that is down stays down, and while a
+    proposal is live its fee, proposer and snapshots never change. *)
+Lemma escrow_one_way g op g' o : step g op = Ok (g', o) -> GovInv g ->
+  forall id p, get_prop g id = Some p ->
+  exists p', get_prop g' id = Some p' /\
+    (escrowed p = false -> escrowed p' = false) /\
+    (pr_live p' = true -> same_snapshot p p') /\
+    (escrowed p = true -> escrowed p' = false ->
+       op = Cancel (pr_proposer p) id \/ exists c, op = Withdraw c id).
+Proof.
+  intros H Hinv id p Hp.
+  assert (Hsame : forall q, same_snapshot q q) by (intros; unfold same_snapshot; tauto).
+  assert (Hkeep : g_props g' = g_props g ->
+          exists p', get_prop g' id = Some p' /\ (escrowed p = false -> escrowed p' = false) /\
+            (pr_live p' = true -> same_snapshot p p') /\
+            (escrowed p = true -> escrowed p' = false ->
+               op = Cancel (pr_proposer p) id \/ exists c, op = Withdraw c id)).
+  { intros E. exists p. split; [rewrite get_prop_getp, E; exact Hp|]. split; [auto|]. split; [auto|]. congruence. }
+  destruct op; simpl in H.
+  - (* Propose *)
+    apply propose_spec in H. destruct H as (_ & _ & _ & _ & _ & _ & g1 & Hx & -> & _).
+    pose proof (xfer_spec _ _ _ _ _ Hx) as (_ & _ & _ & Hc & _). core_eqs Hc.
+    exists p. split.
+    { rewrite get_prop_getp. simpl. rewrite Hpr. apply getp_app_old. exact Hp. }
+    split; [auto|]. split; [auto|]. congruence.
+  - (* Vote *)
+    apply vote_spec in H.
+    destruct H as (q & q' & Hq & Hl & _ & _ & _ & _ & _ & _ & Hq' & _ & _ & _ & HW & HS & _ & _ & Hoth & _ & _).
+    destruct (Z.eq_dec id id0) as [->|Hne].
+    + rewrite Hq in Hp. inversion Hp; subst q. exists q'. split; [exact Hq'|].
+      assert (Hesc : escrowed q' = escrowed p).
+      { unfold escrowed. destruct HS as (L & _). rewrite L, HW. reflexivity. }
+      split; [congruence|]. split; [auto|]. congruence.
+    + exists p. split; [rewrite (Hoth id Hne); exact Hp|]. split; [auto|]. split; [auto|]. congruence.
+  - (* Cancel *)
+    pose proof (cancel_fee _ _ _ _ _ Hinv H) as (q & Hq & Hesc & _ & _ & Hc & _ & _ & _ & _ & Hget & _ & Hoth).
+    destruct (Z.eq_dec id id0) as [->|Hne].
+    + rewrite Hq in Hp. inversion Hp; subst q. exists pr_cleared. split; [exact Hget|].
+      split; [reflexivity|]. split; [simpl; discriminate|]. intros _ _. left. congruence.
+    + exists p. split; [rewrite (Hoth id Hne); exact Hp|]. split; [auto|]. split; [auto|]. congruence.
+  - (* Withdraw *)
+    pose proof (withdraw_fee _ _ _ _ _ Hinv H) as (q & r & Hq & Hesc & _ & _ & _ & _ & _ & _ & _ & Hget & Hoth).
+    destruct (Z.eq_dec id id0) as [->|Hne].
+    + rewrite Hq in Hp. inversion Hp; subst q. exists (pr_set_withdrawn p). split; [exact Hget|].
+      split; [congruence|]. split; [intros _; unfold same_snapshot; simpl; tauto|]. intros _ _. right. eauto.
+    + exists p. split; [rewrite (Hoth id Hne); exact Hp|]. split; [auto|]. split; [auto|]. congruence.
+  - unfold ep_block in H. destruct (0 <=? d); [|discriminate]. inversion H; subst. apply Hkeep. reflexivity.
+  - unfold ep_set_energy in H. destruct (0 <=? e); [|discriminate]. inversion H; subst. apply Hkeep. reflexivity.
+  - unfold ep_sync in H. apply bind_ok in H. destruct H as (t & _ & H). inversion H; subst. apply Hkeep. reflexivity.
+  - unfold ep_donate in H. destruct ((0 <? amt) && negb (c =? SELF)); [|discriminate].
+    apply bind_ok in H. destruct H as (g1 & Hx & H). inversion H; subst.
+    pose proof (xfer_spec _ _ _ _ _ Hx) as (_ & _ & _ & Hc & _). core_eqs Hc. apply Hkeep. assumption.
+  - unfold ep_change_min_energy in H. destruct (only_owner c); [|discriminate]. destruct (0 <=? v); [|discriminate].
+    inversion H; subst. apply Hkeep. reflexivity.
+  - unfold ep_change_min_fee in H. destruct (only_owner c); [|discriminate]. destruct (ok_min_fee v); [|discriminate].
+    inversion H; subst. apply Hkeep. reflexivity.
+  - unfold ep_change_quorum in H. destruct (only_owner c); [|discriminate]. destruct (ok_quorum v); [|discriminate].
+    inversion H; subst. apply Hkeep. reflexivity.
+  - unfold ep_change_wpct in H. destruct (only_owner c); [|discriminate]. destruct (ok_wpct v); [|discriminate].
+    inversion H; subst. apply Hkeep. reflexivity.
+  - unfold ep_change_delay in H. destruct (only_owner c); [|discriminate]. destruct (ok_delay v); [|discriminate].
+    inversion H; subst. apply Hkeep. reflexivity.
+  - unfold ep_change_period in H. destruct (only_owner c); [|discriminate]. destruct (ok_period v); [|discriminate].
+    inversion H; subst. apply Hkeep. reflexivity.
+Qed.
+
+(** nothing but cancel / withdrawDeposit takes the fee token out of the contract or burns it *)
+Lemma outflow_only g op g' o : step g op = Ok (g', o) ->
+  (forall c id, op <> Cancel c id) -> (forall c id, op <> Withdraw c id) ->
+  bal g SELF <= bal g' SELF /\ g_burned g' = g_burned g.
+Proof.
+  intros H NC NW. destruct op; simpl in H.
+  - apply propose_spec in H. destruct H as (Hsc & _ & _ & Ha & _ & _ & g1 & Hx & -> & _).
+    apply is_sc_false in Hsc. destruct Hsc as [HcS _].
+    pose proof (xfer_spec _ _ _ _ _ Hx) as (_ & Hb & Hbu & _). split; [|exact Hbu].
+    change (bal g SELF <= bal g1 SELF). rewrite (Hb SELF), Z.eqb_refl.
+    destruct (SELF =? c) eqn:E; [apply Z.eqb_eq in E; congruence|]. lia.
+  - apply vote_spec in H.
+    destruct H as (q & q' & _ & _ & _ & _ & _ & _ & _ & _ & _ & _ & _ & _ & _ & _ & _ & _ & _ & -> & _).
+    unfold bal. simpl. split; [lia | reflexivity].
+  - exfalso. eapply NC. reflexivity.
+  - exfalso. eapply NW. reflexivity.
+  - unfold ep_block in H. destruct (0 <=? d); [|discriminate]. inversion H; subst. unfold bal; simpl. split; [lia|reflexivity].
+  - unfold ep_set_energy in H. destruct (0 <=? e); [|discriminate]. inversion H; subst. unfold bal; simpl. split; [lia|reflexivity].
+  - unfold ep_sync in H. apply bind_ok in H. destruct H as (t & _ & H). inversion H; subst. unfold bal; simpl. split; [lia|reflexivity].
+  - unfold ep_donate in H. destruct ((0 <? amt) && negb (c =? SELF)) eqn:E; [|discriminate].
+    apply bind_ok in H. destruct H as (g1 & Hx & H). inversion H; subst.
+    apply andb_prop in E. destruct E as [E1 E2]. apply Z.ltb_lt in E1. apply negb_true_iff in E2. apply Z.eqb_neq in E2.
+    pose proof (xfer_spec _ _ _ _ _ Hx) as (_ & Hb & Hbu & _). split; [|exact Hbu].
+    rewrite (Hb SELF), Z.eqb_refl. destruct (SELF =? c) eqn:E; [apply Z.eqb_eq in E; congruence|]. lia.
+  - unfold ep_change_min_energy in H. destruct (only_owner c); [|discriminate]. destruct (0 <=? v); [|discriminate].
+    inversion H; subst. unfold bal; simpl. split; [lia|reflexivity].
+  - unfold ep_change_min_fee in H. destruct (only_owner c); [|discriminate]. destruct (ok_min_fee v); [|discriminate].
+    inversion H; subst. unfold bal; simpl. split; [lia|reflexivity].
+  - unfold ep_change_quorum in H. destruct (only_owner c); [|discriminate]. destruct (ok_quorum v); [|discriminate].
+    inversion H; subst. unfold bal; simpl. split; [lia|reflexivity].
+  - unfold ep_change_wpct in H. destruct (only_owner c); [|discriminate]. destruct (ok_wpct v); [|discriminate].
+    inversion H; subst. unfold bal; simpl. split; [lia|reflexivity].
+  - unfold ep_change_delay in H. destruct (only_owner c); [|discriminate]. destruct (ok_delay v); [|discriminate].
+    inversion H; subst. unfold bal; simpl. split; [lia|reflexivity].
+  - unfold ep_change_period in H. destruct (only_owner c); [|discriminate]. destruct (ok_period v); [|discriminate].
+    inversion H; subst. unfold bal; simpl. split; [lia|reflexivity].
+Qed.
+
+(** ------------------------------------------------------------------ one vote per address: tallies are sums over single ballots *)
+(** a ballot: (voter, proposal id, kind, the voter's energy when the vote was cast) *)
+Definition ballot := (Z * Z * Z * Z)%type.
+Definition b_key (b : ballot) : Z * Z := match b with (c, i, _, _) => (c, i) end.
+
+Fixpoint sum_power (log : list ballot) (id k : Z) : Z :=
+  match log with
+  | [] => 0
+  | (_, i, kd, e) :: t => (if (i =? id) && (kd =? k) then isqrt e else 0) + sum_power t id k
+  end.
+
+Fixpoint sum_energy (log : list ballot) (id : Z) : Z :=
+  match log with
+  | [] => 0
+  | (_, i, _, e) :: t => (if i =? id then e else 0) + sum_energy t id
+  end.
+
+Definition ballot_of (g : gov) (op : gop) : list ballot :=
+  match op with Vote c id k => [(c, id, k, energy_of g c)] | _ => [] end.
+
+(** the successful votes of a history, in order *)
+Fixpoint ballots (g : gov) (ops : list gop) : list ballot :=
+  match ops with
+  | [] => []
+  | op :: t => match step g op with
+               | Ok (g', _) => ballot_of g op ++ ballots g' t
+               | Err _ => ballots g t
+               end
+  end.
+
+Lemma sum_power_app l1 l2 id k : sum_power (l1 ++ l2) id k = sum_power l1 id k + sum_power l2 id k.
+Proof. induction l1 as [|[[[c i] kd] e] t IH]; simpl; [lia | rewrite IH; lia]. Qed.
+
+Lemma sum_energy_app l1 l2 id : sum_energy (l1 ++ l2) id = sum_energy l1 id + sum_energy l2 id.
+Proof. induction l1 as [|[[[c i] kd] e] t IH]; simpl; [lia | rewrite IH; lia]. Qed.
+
+Lemma sums_none log id : (forall c, ~ In (c, id) (map b_key log)) ->
+  (forall k, sum_power log id k = 0) /\ sum_energy log id = 0.
+Proof.
+  induction log as [|[[[c i] kd] e] t IH]; simpl; intros H; [split; auto|].
+  assert (Hi : i <> id) by (intros ->; apply (H c); left; reflexivity).
+  destruct (i =? id) eqn:E; [apply Z.eqb_eq in E; contradiction|]. simpl.
+  destruct IH as [IH1 IH2]; [intros c' Hin; apply (H c'); right; exact Hin|].
+  split; [intros k; rewrite IH1; lia | lia].
+Qed.
+
+Lemma NoDup_app_one {A} (l : list A) (x : A) : NoDup l -> ~ In x l -> NoDup (l ++ [x]).
+Proof.
+  induction l as [|h t IH]; simpl; intros ND Hn.
+  - constructor; [intros [] | constructor].
+  - inversion ND; subst. constructor.
+    + intros Hin. apply in_app_or in Hin. destruct Hin as [Hin|[->|[]]]; [contradiction | apply Hn; left; reflexivity].
+    + apply IH; [assumption | intros Hin; apply Hn; right; exact Hin].
+Qed.
+
+Record VoteInv (g : gov) (log : list ballot) : Prop := {
+  vi_keys : map b_key log = g_voted g;
+  vi_nodup : NoDup (g_voted g);
+  vi_tally : forall id p, get_prop g id = Some p -> pr_live p = true ->
+             (forall k, 0 <= k < GOV_VOTE_COUNT -> tally p k = sum_power log id k) /\
+             pr_quorum p = sum_energy log id;
+  vi_started : forall c id, In (c, id) (g_voted g) ->
+               exists p, get_prop g id = Some p /\ pr_live p = true /\ pr_start p + pr_delay p <= g_block g
+}.
+
+Lemma vinv_frame g g' log :
+  VoteInv g log -> g_props g' = g_props g -> g_voted g' = g_voted g -> g_block g <= g_block g' -> VoteInv g' log.
+Proof.
+  intros [] Hp Hv Hb. constructor.
+  - congruence.
+  - congruence.
+  - intros id p H. rewrite get_prop_getp, Hp in H. apply vi_tally0. exact H.
+  - intros c id Hin. rewrite Hv in Hin. destruct (vi_started0 c id Hin) as (p & A & B & C).
+    exists p. split; [rewrite get_prop_getp, Hp; exact A|]. split; [exact B | lia].
+Qed.
+
+(** replacing proposal [id] by [p'] which either keeps its tallies, or is dead and had no votes *)
+Lemma vinv_put g g1 log id p p' :
+  VoteInv g log -> g_props g1 = g_props g -> g_voted g1 = g_voted g -> g_block g1 = g_block g ->
+  get_prop g id = Some p ->
+  (pr_live p' = true ->
+     pr_live p = true /\ (forall k, tally p' k = tally p k) /\ pr_quorum p' = pr_quorum p /\
+     pr_start p' = pr_start p /\ pr_delay p' = pr_delay p) ->
+  (pr_live p' = false -> forall c, ~ In (c, id) (g_voted g)) ->
+  VoteInv (put_prop g1 id p') log.
+Proof.
+  intros [] Hp Hv Hb Hget Hlive Hdead.
+  rewrite get_prop_getp in Hget. pose proof (getp_some _ _ _ Hget) as [Hr Hn].
+  constructor.
+  - simpl. congruence.
+  - simpl. congruence.
+  - intros id2 q H L. rewrite get_prop_getp in H. unfold put_prop in H. simpl in H. rewrite Hp in H.
+    destruct (Z.eq_dec id2 id) as [->|Hne].
+    + rewrite getp_upd_same in H by exact Hr. inversion H; subst q.
+      destruct (Hlive L) as (Lp & Ht & Hq & _). destruct (vi_tally0 id p Hget Lp) as [T Q].
+      split; [intros k Hk; rewrite Ht; apply T; exact Hk | congruence].
+    + rewrite getp_upd_other in H by lia. apply vi_tally0; assumption.
+  - intros c id2 Hin. simpl in Hin. rewrite Hv in Hin.
+    destruct (vi_started0 c id2 Hin) as (q & A & B & C).
+    destruct (Z.eq_dec id2 id) as [->|Hne].
+    + rewrite get_prop_getp in A. rewrite Hget in A. inversion A; subst q.
+      destruct (pr_live p') eqn:L.
+      * destruct (Hlive eq_refl) as (_ & _ & _ & S & D).
+        exists p'. split; [rewrite get_prop_getp; unfold put_prop; simpl; rewrite Hp; apply getp_upd_same; exact Hr|].
+        split; [exact L|]. simpl. rewrite Hb. lia.
+      * exfalso. exact (Hdead eq_refl c Hin).
+    + exists q. split; [rewrite get_prop_getp; unfold put_prop; simpl; rewrite Hp; rewrite getp_upd_other by lia; exact A|].
+      split; [exact B|]. simpl. rewrite Hb. exact C.
+Qed.
+
+Lemma vinv_step g op g' o log :
+  step g op = Ok (g', o) -> VoteInv g log -> VoteInv g' (log ++ ballot_of g op).
+Proof.
+  intros H Hinv.
+  assert (Hkeep : g_props g' = g_props g -> g_voted g' = g_voted g -> g_block g <= g_block g' ->
+                  ballot_of g op = [] -> VoteInv g' (log ++ ballot_of g op)).
+  { intros A B C D. rewrite D, app_nil_r. eapply vinv_frame; eauto. }
+  destruct op; simpl in H.
+  - (* Propose *)
+    apply propose_spec in H. destruct H as (_ & _ & _ & _ & _ & _ & g1 & Hx & -> & _).
+    pose proof (xfer_spec _ _ _ _ _ Hx) as (_ & _ & _ & Hc & _). core_eqs Hc.
+    simpl. rewrite app_nil_r. destruct Hinv as [K N T S]. constructor.
+    + simpl. congruence.
+    + simpl. congruence.
+    + intros id p H L. rewrite get_prop_getp in H. simpl in H. rewrite Hpr in H.
+      apply getp_app_inv in H. destruct H as [[H _]|[-> ->]].
+      * apply T; assumption.
+      * (* the new id has no ballots *)
+        assert (Hno : forall c', ~ In (c', Z.of_nat (length (g_props g)) + 1) (map b_key log)).
+        { intros c' Hin. rewrite K in Hin. destruct (S _ _ Hin) as (q & A & _).
+          rewrite get_prop_getp in A. apply getp_some in A. lia. }
+        destruct (sums_none _ _ Hno) as [S1 S2].
+        split; [|rewrite S2; reflexivity].
+        intros k Hk. rewrite S1. pose proof gov_vote_codes as (C0 & C1 & C2 & C3 & C4).
+        unfold tally, new_proposal. simpl. repeat match goal with |- context [if ?b then _ else _] => destruct b end; reflexivity.
+    + intros c' id Hin. simpl in Hin. rewrite Hvo in Hin. destruct (S _ _ Hin) as (q & A & B & C).
+      exists q. split; [rewrite get_prop_getp; simpl; rewrite Hpr; apply getp_app_old; exact A|].
+      split; [exact B|]. simpl. rewrite Hblk. exact C.
+  - (* Vote *)
+    apply vote_spec in H.
+    destruct H as (p & p' & Hp & Hl & _ & Hst & Hnv & _ & Hk & He & Hp' & HT & HQ & _ & _ & HS & _ & _ & Hoth & -> & _).
+    simpl. destruct Hinv as [K N T S].
+    assert (Hnin : ~ In (c, id) (g_voted g)).
+    { intros Hin. apply has_voted_in in Hin. congruence. }
+    pose proof Hp as Hp0. rewrite get_prop_getp in Hp0. pose proof (getp_some _ _ _ Hp0) as [Hr Hn].
+    destruct HS as (L' & _ & _ & _ & D' & _ & _ & S').
+    constructor.
+    + simpl. rewrite map_app. simpl. congruence.
+    + simpl. apply NoDup_app_one; assumption.
+    + intros id2 q H L. destruct (Z.eq_dec id2 id) as [->|Hne].
+      * rewrite Hp' in H. inversion H; subst q.
+        destruct (T id p Hp Hl) as [T1 T2]. split.
+        -- intros k Hkk. rewrite sum_power_app. simpl. rewrite Z.eqb_refl. simpl.
+           rewrite (HT k Hkk), (T1 k Hkk). rewrite (Z.eqb_sym kind k). lia.
+        -- rewrite sum_energy_app. simpl. rewrite Z.eqb_refl. lia.
+      * rewrite (Hoth id2 Hne) in H. destruct (T id2 q H L) as [T1 T2]. split.
+        -- intros k Hkk. rewrite sum_power_app. simpl.
+           destruct (id =? id2) eqn:E; [apply Z.eqb_eq in E; congruence|]. simpl. rewrite (T1 k Hkk). lia.
+        -- rewrite sum_energy_app. simpl.
+           destruct (id =? id2) eqn:E; [apply Z.eqb_eq in E; congruence|]. lia.
+    + intros c' id2 Hin. simpl in Hin. apply in_app_or in Hin.
+      assert (Hblk : g_block (put_prop (set_voted g (g_voted g ++ [(c, id)])) id p') = g_block g) by reflexivity.
+      rewrite Hblk.
+      destruct (Z.eq_dec id2 id) as [->|Hne].
+      * exists p'. split; [exact Hp'|]. split; [congruence|]. rewrite S', D'.
+        apply status_active_started. exact Hst.
+      * destruct Hin as [Hin|[Hin|[]]]; [|inversion Hin; congruence].
+        destruct (S _ _ Hin) as (q & A & B & C). exists q. rewrite (Hoth id2 Hne). auto.
+  - (* Cancel *)
+    apply cancel_spec in H. destruct H as (p & g1 & Hp & Hl & _ & Hst & _ & Hx & -> & _).
+    pose proof (xfer_spec _ _ _ _ _ Hx) as (_ & _ & _ & Hc & _). core_eqs Hc.
+    simpl. rewrite app_nil_r. apply vinv_put with (g := g) (p := p); auto.
+    + simpl. discriminate.
+    + intros _ c' Hin. destruct Hinv as [K N T S]. destruct (S _ _ Hin) as (q & A & _ & C).
+      rewrite Hp in A. inversion A; subst q. apply status_pending_early in Hst. lia.
+  - (* Withdraw *)
+    apply withdraw_spec in H. destruct H as (p & Hp & Hl & Hwd & _ & _ & Hcase).
+    simpl. rewrite app_nil_r.
+    destruct Hcase as [(_ & _ & g1 & Hx & ->) | (_ & Hcase)].
+    + pose proof (xfer_spec _ _ _ _ _ Hx) as (_ & _ & _ & Hc & _). core_eqs Hc.
+      apply vinv_put with (g := g) (p := p); auto.
+      simpl. congruence.
+    + cbv zeta in Hcase. destruct Hcase as (_ & g1 & g2 & Hbn & Hx & ->).
+      pose proof (burn_spec _ _ _ Hbn) as (_ & _ & _ & Hc1 & _).
+      pose proof (xfer_spec _ _ _ _ _ Hx) as (_ & _ & _ & Hc2 & _). rewrite Hc1 in Hc2. core_eqs Hc2.
+      apply vinv_put with (g := g) (p := p); auto.
+      simpl. congruence.
+  - unfold ep_block in H. destruct (0 <=? d) eqn:E; [|discriminate]. apply Z.leb_le in E. inversion H; subst.
+    apply Hkeep; simpl; auto; lia.
+  - unfold ep_set_energy in H. destruct (0 <=? e); [|discriminate]. inversion H; subst. apply Hkeep; simpl; auto; lia.
+  - unfold ep_sync in H. apply bind_ok in H. destruct H as (t & _ & H). inversion H; subst. apply Hkeep; simpl; auto; lia.
+  - unfold ep_donate in H. destruct ((0 <? amt) && negb (c =? SELF)); [|discriminate].
+    apply bind_ok in H. destruct H as (g1 & Hx & H). inversion H; subst.
+    pose proof (xfer_spec _ _ _ _ _ Hx) as (_ & _ & _ & Hc & _). core_eqs Hc. apply Hkeep; auto; lia.
+  - unfold ep_change_min_energy in H. destruct (only_owner c); [|discriminate]. destruct (0 <=? v); [|discriminate].
+    inversion H; subst. apply Hkeep; simpl; auto; lia.
+  - unfold ep_change_min_fee in H. destruct (only_owner c); [|discriminate]. destruct (ok_min_fee v); [|discriminate].
+    inversion H; subst. apply Hkeep; simpl; auto; lia.
+  - unfold ep_change_quorum in H. destruct (only_owner c); [|discriminate]. destruct (ok_quorum v); [|discriminate].
+    inversion H; subst. apply Hkeep; simpl; auto; lia.
+  - unfold ep_change_wpct in H. destruct (only_owner c); [|discriminate]. destruct (ok_wpct v); [|discriminate].
+    inversion H; subst. apply Hkeep; simpl; auto; lia.
+  - unfold ep_change_delay in H. destruct (only_owner c); [|discriminate]. destruct (ok_delay v); [|discriminate].
+    inversion H; subst. apply Hkeep; simpl; auto; lia.
+  - unfold ep_change_period in H. destruct (only_owner c); [|discriminate]. destruct (ok_period v); [|discriminate].
+    inversion H; subst. apply Hkeep; simpl; auto; lia.
+Qed.
+
+Lemma init_vinv me mf q d p w blk bals : VoteInv (init_gov me mf q d p w blk bals) [].
+Proof.
+  constructor; simpl.
+  - reflexivity.
+  - constructor.
+  - intros id x H. rewrite get_prop_getp in H. simpl in H. apply getp_some in H. simpl in H. lia.
+  - intros c id [].
+Qed.
+
+Lemma run_vinv ops : forall g log, VoteInv g log -> VoteInv (run g ops) (log ++ ballots g ops).
+Proof.
+  unfold run. induction ops as [|op t IH]; intros g log H; simpl.
+  - rewrite app_nil_r. exact H.
+  - unfold step_total. destruct (step g op) as [[g' o]|] eqn:E.
+    + rewrite app_assoc. apply IH. eapply vinv_step; eauto.
+    + apply IH. exact H.
+Qed.
+
+(** Along every history from deployment: no address appears twice on the same proposal among the
+    successful votes, and every live proposal's tallies are exactly the sums over those ballots of
+    floor-sqrt(energy) per kind, its quorum the sum of the energies. *)
+Lemma history_votes me mf q d p w blk bals ops :
+  let g0 := init_gov me mf q d p w blk bals in
+  let log := ballots g0 ops in
+  NoDup (map b_key log) /\
+  map b_key log = g_voted (run g0 ops) /\
+  forall id x, get_prop (run g0 ops) id = Some x -> pr_live x = true ->
+    (forall k, 0 <= k < GOV_VOTE_COUNT -> tally x k = sum_power log id k) /\
+    pr_quorum x = sum_energy log id.
+Proof.
+  cbv zeta. pose proof (run_vinv ops _ _ (init_vinv me mf q d p w blk bals)) as [K N T S].
+  simpl in *. split; [rewrite K; exact N|]. split; [exact K|]. exact T.
+Qed.
+
+(** once an address has voted on a proposal, that stays recorded for ever *)
+Lemma voted_step g op g' o c id : step g op = Ok (g', o) -> has_voted g c id = true -> has_voted g' c id = true.
+Proof.
+  intros H Hv. apply has_voted_in in Hv. apply has_voted_in.
+  destruct op; simpl in H.
+  - apply propose_spec in H. destruct H as (_ & _ & _ & _ & _ & _ & g1 & Hx & -> & _).
+    pose proof (xfer_spec _ _ _ _ _ Hx) as (_ & _ & _ & Hc & _). core_eqs Hc. simpl. congruence.
+  - apply vote_spec in H.
+    destruct H as (q & q' & _ & _ & _ & _ & _ & _ & _ & _ & _ & _ & _ & _ & _ & _ & Hvo & _).
+    rewrite Hvo. apply in_or_app. left. exact Hv.
+  - apply cancel_spec in H. destruct H as (p & g1 & _ & _ & _ & _ & _ & Hx & -> & _).
+    pose proof (xfer_spec _ _ _ _ _ Hx) as (_ & _ & _ & Hc & _). core_eqs Hc. simpl. congruence.
+  - apply withdraw_spec in H. destruct H as (p & _ & _ & _ & _ & _ & Hcase).
+    destruct Hcase as [(_ & _ & g1 & Hx & ->) | (_ & Hcase)].
+    + pose proof (xfer_spec _ _ _ _ _ Hx) as (_ & _ & _ & Hc & _). core_eqs Hc. simpl. congruence.
+    + cbv zeta in Hcase. destruct Hcase as (_ & g1 & g2 & Hbn & Hx & ->).
+      pose proof (burn_spec _ _ _ Hbn) as (_ & _ & _ & Hc1 & _).
+      pose proof (xfer_spec _ _ _ _ _ Hx) as (_ & _ & _ & Hc2 & _). rewrite Hc1 in Hc2. core_eqs Hc2.
+      simpl. congruence.
+  - unfold ep_block in H. destruct (0 <=? d); [|discriminate]. inversion H; subst. exact Hv.
+  - unfold ep_set_energy in H. destruct (0 <=? e); [|discriminate]. inversion H; subst. exact Hv.
+  - unfold ep_sync in H. apply bind_ok in H. destruct H as (t & _ & H). inversion H; subst. exact Hv.
+  - unfold ep_donate in H. destruct ((0 <? amt) && negb (c0 =? SELF)); [|discriminate].
+    apply bind_ok in H. destruct H as (g1 & Hx & H). inversion H; subst.
+    pose proof (xfer_spec _ _ _ _ _ Hx) as (_ & _ & _ & Hc & _). core_eqs Hc. congruence.
+  - unfold ep_change_min_energy in H. destruct (only_owner c0); [|discriminate]. destruct (0 <=? v); [|discriminate].
+    inversion H; subst. exact Hv.
+  - unfold ep_change_min_fee in H. destruct (only_owner c0); [|discriminate]. destruct (ok_min_fee v); [|discriminate].
+    inversion H; subst. exact Hv.
+  - unfold ep_change_quorum in H. destruct (only_owner c0); [|discriminate]. destruct (ok_quorum v); [|discriminate].
+    inversion H; subst. exact Hv.
+  - unfold ep_change_wpct in H. destruct (only_owner c0); [|discriminate]. destruct (ok_wpct v); [|discriminate].
+    inversion H; subst. exact Hv.
+  - unfold ep_change_delay in H. destruct (only_owner c0); [|discriminate]. destruct (ok_delay v); [|discriminate].
+    inversion H; subst. exact Hv.
+  - unfold ep_change_period in H. destruct (only_owner c0); [|discriminate]. destruct (ok_period v); [|discriminate].
+    inversion H; subst. exact Hv.
+Qed.
+
+Lemma voted_run ops : forall g c id, has_voted g c id = true -> has_voted (run g ops) c id = true.
+Proof.
+  unfold run. induction ops as [|op t IH]; intros g c id H; simpl; [exact H|].
+  apply IH. unfold step_total. destruct (step g op) as [[g' o]|] eqn:E; [|exact H].
+  eapply voted_step; eauto.
+Qed.
+
+(** whatever happens after an address voted on a proposal, its second vote on it is rejected *)
+Lemma never_votes_twice g c id k1 g1 o1 ops k2 :
+  ep_vote g c id k1 = Ok (g1, o1) -> is_ok (ep_vote (run g1 ops) c id k2) = false.
+Proof.
+  intros H. apply vote_twice_fails. apply voted_run.
+  apply vote_spec in H. destruct H as (p & p' & _ & _ & _ & _ & _ & Hv & _). exact Hv.
+Qed.
+
+(** same for the fee: once the escrow flag of a proposal is down it stays down along every history,
+    so neither cancel nor withdrawDeposit can succeed on it again *)
+Lemma escrow_down_run ops : forall g id p, GovInv g -> get_prop g id = Some p -> escrowed p = false ->
+  exists p', get_prop (run g ops) id = Some p' /\ escrowed p' = false.
+Proof.
+  unfold run. induction ops as [|op t IH]; intros g id p Hinv Hp He; simpl; [eauto|].
+  unfold step_total. destruct (step g op) as [[g' o]|] eqn:E.
+  - destruct (escrow_one_way _ _ _ _ E Hinv id p Hp) as (p' & Hp' & Hd & _).
+    apply (IH g' id p'); auto. exact (proj1 (step_inv _ _ _ _ E Hinv)).
+  - apply (IH g id p); auto.
+Qed.
+
+Lemma fee_never_leaves_twice g id p ops c : GovInv g -> get_prop g id = Some p -> escrowed p = false ->
+  is_ok (ep_cancel (run g ops) c id) = false /\ is_ok (ep_withdraw (run g ops) c id) = false.
+Proof.
+  intros Hinv Hp He. destruct (escrow_down_run ops g id p Hinv Hp He) as (p' & Hp' & He').
+  split; [eapply cancel_needs_escrow; eauto; apply run_inv; exact Hinv | eapply withdraw_needs_escrow; eauto].
+Qed.
+
+(** ------------------------------------------------------------------ rejections and availability *)
+Lemma cancel_rejected g c id : GovInv g ->
+  (view_status g id <> GOV_STATUS_Pending \/ exists p, get_prop g id = Some p /\ c <> pr_proposer p) ->
+  is_ok (ep_cancel g c id) = false.
+Proof.
+  intros Hinv Hr. destruct (ep_cancel g c id) as [[g' o]|] eqn:E; [|reflexivity]. exfalso.
+  apply (cancel_fee _ _ _ _ _ Hinv) in E. destruct E as (q & Hq & _ & Hst & _ & Hc & _).
+  destruct Hr as [Hr|(p & Hp & Hne)]; [contradiction|]. rewrite Hq in Hp. inversion Hp; subst. contradiction.
+Qed.
+
+Lemma withdraw_rejected g c id : GovInv g ->
+  ((view_status g id <> GOV_STATUS_Succeeded /\ view_status g id <> GOV_STATUS_Defeated /\
+    view_status g id <> GOV_STATUS_DefeatedWithVeto)
+   \/ (view_status g id <> GOV_STATUS_DefeatedWithVeto /\ exists p, get_prop g id = Some p /\ c <> pr_proposer p)) ->
+  is_ok (ep_withdraw g c id) = false.
+Proof.
+  intros Hinv Hr. destruct (ep_withdraw g c id) as [[g' o]|] eqn:E; [|reflexivity]. exfalso.
+  apply (withdraw_fee _ _ _ _ _ Hinv) in E. destruct E as (q & r & Hq & _ & Hvs & Hcase & _).
+  rewrite <- Hvs in Hcase.
+  destruct Hr as [(A & B & C)|(A & p & Hp & Hne)].
+  - destruct Hcase as [([H|H] & _)|(H & _)]; contradiction.
+  - rewrite Hq in Hp. inversion Hp; subst.
+    destruct Hcase as [(_ & Hc & _)|(H & _)]; contradiction.
+Qed.
+
+Lemma esc_nonneg p : 0 <= pr_fee p -> 0 <= esc p.
+Proof. unfold esc. destruct (escrowed p); lia. Qed.
+
+Lemma escrow_sum_ge l : (forall n q, nth_error l n = Some q -> 0 <= pr_fee q) ->
+  0 <= escrow_sum l /\ forall n p, nth_error l n = Some p -> esc p <= escrow_sum l.
+Proof.
+  induction l as [|h t IH]; intros Hf; simpl.
+  - split; [lia|]. intros [|n] p H; discriminate.
+  - assert (Hh : 0 <= pr_fee h) by (apply (Hf 0%nat); reflexivity).
+    destruct IH as [I0 I1]; [intros n q Hq; apply (Hf (S n)); exact Hq|].
+    pose proof (esc_nonneg h Hh) as He0.
+    split; [lia|]. intros [|n] p Hn; simpl in Hn.
+    + inversion Hn; subst. lia.
+    + specialize (I1 n p Hn). lia.
+Qed.
+
+Lemma inv_fees_nonneg g : GovInv g -> forall n q, nth_error (g_props g) n = Some q -> 0 <= pr_fee q.
+Proof.
+  intros Hinv n q H.
+  assert (Hlt : (n < length (g_props g))%nat) by (apply nth_error_Some; congruence).
+  assert (Hg : get_prop g (Z.of_nat n + 1) = Some q).
+  { rewrite get_prop_getp. unfold getp.
+    replace ((1 <=? Z.of_nat n + 1) && (Z.of_nat n + 1 <=? Z.of_nat (length (g_props g)))) with true
+      by (symmetry; apply andb_true_iff; rewrite !Z.leb_le; lia).
+    replace (Z.to_nat (Z.of_nat n + 1 - 1)) with n by lia. exact H. }
+  exact (po_fee _ (gi_props _ Hinv _ _ Hg)).
+Qed.
+
+(** the contract always holds the fee of every proposal still in escrow *)
+Lemma escrow_backed g id p : GovInv g -> get_prop g id = Some p -> escrowed p = true -> pr_fee p <= bal g SELF.
+Proof.
+  intros Hinv Hp He. pose proof (gi_excess _ Hinv) as Hex. unfold excess in Hex.
+  rewrite get_prop_getp in Hp. apply getp_some in Hp. destruct Hp as [_ Hn].
+  destruct (escrow_sum_ge (g_props g) (inv_fees_nonneg g Hinv)) as [_ Hge].
+  specialize (Hge _ _ Hn). unfold esc in Hge. rewrite He in Hge. lia.
+Qed.
+
+(** ... so the refund paths cannot fail: a pending proposal can be cancelled by its proposer, *)
+Lemma cancel_succeeds g id p : GovInv g -> get_prop g id = Some p -> pr_live p = true ->
+  status_of (g_block g) p = GOV_STATUS_Pending -> is_ok (ep_cancel g (pr_proposer p) id) = true.
+Proof.
+  intros Hinv Hp Hl Hst. pose proof gov_status_order as O.
+  assert (Hwd : pr_withdrawn p = false).
+  { destruct (pr_withdrawn p) eqn:W; [|reflexivity]. pose proof (gi_wd _ Hinv _ _ Hp W).
+    apply status_pending_early in Hst. lia. }
+  assert (Hb : pr_fee p <= bal g SELF).
+  { apply (escrow_backed g id p Hinv Hp). unfold escrowed. rewrite Hl, Hwd. reflexivity. }
+  unfold ep_cancel. rewrite (view_status_live g id p Hp Hl), Hst. cbv zeta.
+  destruct (GOV_STATUS_Pending =? GOV_STATUS_None) eqn:E0; [apply Z.eqb_eq in E0; lia|].
+  rewrite Z.eqb_refl, Hp, Z.eqb_refl.
+  unfold xfer, sub_chk. destruct (bal g SELF <? pr_fee p) eqn:E; [apply Z.ltb_lt in E; lia|]. reflexivity.
+Qed.
+
+(** ... and a decided proposal's fee can be withdrawn (by the proposer; on veto by anyone) *)
+Lemma withdraw_succeeds g c id p : GovInv g -> get_prop g id = Some p -> escrowed p = true ->
+  ((status_of (g_block g) p = GOV_STATUS_Succeeded \/ status_of (g_block g) p = GOV_STATUS_Defeated) /\ c = pr_proposer p
+   \/ status_of (g_block g) p = GOV_STATUS_DefeatedWithVeto) ->
+  is_ok (ep_withdraw g c id) = true.
+Proof.
+  intros Hinv Hp He Hst. pose proof gov_status_order as O. pose proof full_pos as HF.
+  unfold escrowed in He. apply andb_prop in He. destruct He as [Hl Hwd]. apply negb_true_iff in Hwd.
+  assert (Hb : pr_fee p <= bal g SELF).
+  { apply (escrow_backed g id p Hinv Hp). unfold escrowed. rewrite Hl, Hwd. reflexivity. }
+  pose proof (gi_props _ Hinv _ _ Hp) as [Hw Hfee _ _].
+  unfold ep_withdraw. rewrite (view_status_live g id p Hp Hl). cbv zeta.
+  destruct (status_of (g_block g) p =? GOV_STATUS_None) eqn:E0;
+    [apply Z.eqb_eq in E0; exfalso; exact (status_of_not_none _ _ E0)|].
+  destruct Hst as [([Hs|Hs] & ->)|Hs]; rewrite Hs.
+  - rewrite Z.eqb_refl. simpl. rewrite Hp, Z.eqb_refl, Hwd. simpl.
+    unfold xfer, sub_chk. destruct (bal g SELF <? pr_fee p) eqn:E; [apply Z.ltb_lt in E; lia|]. reflexivity.
+  - destruct (GOV_STATUS_Defeated =? GOV_STATUS_Succeeded) eqn:E1; [apply Z.eqb_eq in E1; lia|].
+    rewrite Z.eqb_refl. simpl. rewrite Hp, Z.eqb_refl, Hwd. simpl.
+    unfold xfer, sub_chk. destruct (bal g SELF <? pr_fee p) eqn:E; [apply Z.ltb_lt in E; lia|]. reflexivity.
+  - destruct (GOV_STATUS_DefeatedWithVeto =? GOV_STATUS_Succeeded) eqn:E1; [apply Z.eqb_eq in E1; lia|].
+    destruct (GOV_STATUS_DefeatedWithVeto =? GOV_STATUS_Defeated) eqn:E2; [apply Z.eqb_eq in E2; lia|].
+    cbn [orb]. rewrite Z.eqb_refl, Hp, Hwd. cbn [negb].
+    assert (R0 : 0 <= pr_wpct p * pr_fee p / FULL) by (apply div_nonneg; [nia | exact HF]).
+    assert (R1 : pr_wpct p * pr_fee p / FULL <= pr_fee p).
+    { apply Z.div_le_upper_bound; [exact HF | nia]. }
+    set (refund := pr_wpct p * pr_fee p / FULL) in *. clearbody refund.
+    unfold sub_chk at 1. destruct (pr_fee p <? refund) eqn:E3; [apply Z.ltb_lt in E3; lia|]. simpl.
+    unfold burn, sub_chk. destruct (bal g SELF <? pr_fee p - refund) eqn:E4; [apply Z.ltb_lt in E4; lia|]. simpl.
+    unfold xfer, sub_chk, bal. simpl. rewrite aget_aset_same.
+    destruct (aget (g_bal g) SELF - (pr_fee p - refund) <? refund) eqn:E5;
+      [apply Z.ltb_lt in E5; unfold bal in Hb; lia|]. reflexivity.
+Qed.
+
+(** ------------------------------------------------------------------ statements used by Props/C18.v *)
+Lemma status_documented g id p : GovInv g -> get_prop g id = Some p -> pr_live p = true ->
+  let blk := g_block g in
+  let vs := pr_start p + pr_delay p in
+  let ve := vs + pr_period p in
+  let s := view_status g id in
+  (s = GOV_STATUS_Pending <-> blk < vs) /\
+  (s = GOV_STATUS_Active <-> vs <= blk < ve) /\
+  (s = GOV_STATUS_Succeeded <-> ve <= blk /\ quorum_ok p /\ up_exceeds_half p /\ ~ veto_exceeds_third p) /\
+  (s = GOV_STATUS_DefeatedWithVeto <-> ve <= blk /\ veto_exceeds_third p) /\
+  (s = GOV_STATUS_Defeated <-> ve <= blk /\ ~ veto_exceeds_third p /\ ~ (quorum_ok p /\ up_exceeds_half p)) /\
+  s <> GOV_STATUS_None.
+Proof.
+  intros Hinv Hp Hl. cbv zeta. rewrite (view_status_live g id p Hp Hl).
+  apply status_char. exact (po_period _ (gi_props _ Hinv _ _ Hp)).
+Qed.
+
+Lemma reach_inv me mf q d p w blk bals ops :
+  cfg_ok w p -> NoDup (akeys bals) -> 0 <= aget bals SELF ->
+  GovInv (run (init_gov me mf q d p w blk bals) ops).
+Proof. intros. apply run_inv. apply init_inv; assumption. Qed.
+
+Lemma reach_escrow me mf q d p w blk bals ops :
+  cfg_ok w p -> NoDup (akeys bals) -> aget bals SELF = 0 ->
+  let g0 := init_gov me mf q d p w blk bals in
+  bal (run g0 ops) SELF = escrow_sum (g_props (run g0 ops)) + donated g0 ops /\
+  asum (g_bal (run g0 ops)) + g_burned (run g0 ops) = asum bals.
+Proof.
+  intros Hc Hn Hb. cbv zeta.
+  assert (Hi : GovInv (init_gov me mf q d p w blk bals)) by (apply init_inv; auto; lia).
+  pose proof (run_excess ops _ Hi) as He. pose proof (run_conserved ops _ Hi) as Hs.
+  unfold excess in He. simpl in *. unfold bal in He at 2. simpl in He. split; lia.
 Qed.
